@@ -50,3 +50,24 @@ func (mq *MessageQueue) VerifDump(pool []cid.Cid) string {
 	}
 	return s + " ]"
 }
+
+// VerifTracked returns, for each CID of pool, the want the queue itself tracks
+// (pending or sent): peer want type (0 none, 1 have, 2 block) and broadcast flag.
+// Used only to label a diverging history with the call order the queue really took.
+func (mq *MessageQueue) VerifTracked(pool []cid.Cid) (peer []int, bcst []bool) {
+	for _, c := range pool {
+		t := 0
+		for _, w := range []*bswl.Wantlist{mq.peerWants.pending, mq.peerWants.sent} {
+			if e, ok := w.Get(c); ok {
+				if e.WantType == pb.Message_Wantlist_Block {
+					t = 2
+				} else if t < 1 {
+					t = 1
+				}
+			}
+		}
+		peer = append(peer, t)
+		bcst = append(bcst, mq.bcstWants.pending.Has(c) || mq.bcstWants.sent.Has(c))
+	}
+	return peer, bcst
+}
